@@ -72,6 +72,10 @@ class World:
         elif desc == "omae":
             self.dd, self.fd, self.sem = pre.get_OMAE2020_Hs_Tz()
             base = raw
+        elif desc == "omae_vhs":      # a dependence function that takes another one as parameter (alpha of beta)
+            self.dd, self.fd, self.sem = pre.get_OMAE2020_V_Hs()
+            base = virocon.read_ec_benchmark_dataset(os.path.join(os.environ["VIROCON_REPO"], "datasets",
+                                                                  "ec-benchmark_dataset_D_1year.txt")).values
         elif desc == "windmeier":
             self.dd, self.fd, self.sem, _ = pre.get_Windmeier_EW_Hs_S()
             base = self.tr["transform"](raw)
